@@ -292,10 +292,58 @@ def run_reuse_case(ctx, d):
                         "score_x_minus_score_baseline": (sx - sb).tolist()})
 
 
+def run_scale_case(ctx, d):
+    """inputs and baseline of a very small or very large magnitude (x = integers * 2^e, the score reads x * 2^-e, so every
+    float32 operation stays exact): the attribution is (x - baseline) * trapezoid at EVERY scale - no threshold below which
+    a feature counts as 'equal to the baseline' (added after a seeded change was missed).  Quadratic integer score:
+    completeness is exact."""
+    import tensorflow as tf
+    from xplique.attributions import IntegratedGradients
+    from common import PolyModel
+    rng = np.random.default_rng(d["case_seed"])
+    shape = tuple(d["shape"])
+    nflat = int(np.prod(shape))
+    pm = PolyModel(rng, nflat, nc=2, quad=3, cub=0, coef=2)
+    sc = float(2.0 ** d["exp"])
+    model = lambda x: pm.tf_outputs(x * (1.0 / sc))        # noqa: E731
+    op = lambda f, x, y: tf.reduce_sum(f(x) * y, -1)  # noqa: E731
+    n = d["N"]
+    y = small_ints(rng, (n, 2), -2, 2)
+    y[:, 0] += 1
+    xi = small_ints(rng, (n,) + shape, -2, 2)
+    bi = float(d["baseline_int"])
+    x = (xi * sc).astype(np.float32)
+    ctx.case(d, True)
+    ctx.count("scale_cases", f"2^{d['exp']}")
+    ok, out = ctx.impl_call(d, lambda: IntegratedGradients(model, operator=op, steps=d["steps"], baseline_value=bi * sc,
+                                                           batch_size=d["bs"], reducer=None)(x, y).numpy(), signature="scale-call")
+    if not ok:
+        return
+    xf = xi.reshape(n, -1).astype(np.float64)
+    sx = (pm.outputs(xf) * y).sum(-1)
+    sb = (pm.outputs(np.full_like(xf, bi)) * y).sum(-1)
+    tot = out.reshape(n, -1).astype(np.float64).sum(-1)
+    ctx.check_prop("completeness-at-every-input-scale", bool(np.allclose(tot, sx - sb, rtol=1e-5, atol=1e-4)), d,
+                   {"scale": sc, "baseline_value": bi * sc, "sum_attributions": tot.tolist(),
+                    "score_x_minus_score_baseline": (sx - sb).tolist()})
+    # scale covariance: attributions(x * s) for score(x / s) equal the attributions at scale 1
+    ok, ref = ctx.impl_call(d, lambda: IntegratedGradients(pm.tf_outputs, operator=op, steps=d["steps"], baseline_value=bi,
+                                                           batch_size=d["bs"], reducer=None)(xi.astype(np.float32), y).numpy(),
+                            signature="scale-call")
+    if ok:
+        ctx.check_prop("attributions-independent-of-input-scale", bool(np.allclose(out, ref, rtol=1e-5, atol=1e-5)), d,
+                       {"scale": sc, "scaled": out.reshape(-1)[:8].tolist(), "unit": ref.reshape(-1)[:8].tolist()})
+
+
 def run(ctx):
     for d in corpus_cases() + gen_cases(ctx):
         run_case(ctx, d)
     rng = ctx.rng
+    for e in ([-24, -30, 20, -10] if ctx.tier == "quick" else [-24, -30, -40, -16, -10, 10, 20, 30]) * ctx.budget_scale:
+        run_scale_case(ctx, {"family": "scale", "exp": e, "shape": [[4], [2, 3], [3, 2, 2]][int(rng.integers(3))],
+                             "N": int(rng.integers(1, 4)), "baseline_int": float(rng.choice([0.0, 1.0, -2.0])),
+                             "steps": int(rng.choice([2, 3, 5, 9])), "bs": [None, 1, 4, 64][int(rng.integers(4))],
+                             "case_seed": int(rng.integers(1 << 31))})
     for _ in range((12 if ctx.tier == "thorough" else 3) * ctx.budget_scale):
         k = int(rng.integers(2, 5))
         run_reuse_case(ctx, {"family": "reuse", "shape": [[4], [2, 3], [3, 2, 2]][int(rng.integers(3))], "N": int(rng.integers(1, 4)),
@@ -318,6 +366,9 @@ def replay(ctx, r):
     _d = r["case"] if "case" in r else r["first_disagreement"][0]
     if isinstance(_d, dict) and _d.get("family") == "reuse":
         run_reuse_case(ctx, _d)
+        return
+    if isinstance(_d, dict) and _d.get("family") == "scale":
+        run_scale_case(ctx, _d)
         return
     case = r.get("case") or ((r.get("first_disagreement") or [None])[0])
     if case is None:        # broken proof obligation without a failing input: the Lean stage re-checks it
